@@ -48,6 +48,14 @@ func runC16Main(c *fw.Case) (o fw.Outcome) {
 	cfg := genEmuConfig(r)
 	n := 2 + r.Intn(3)
 	k0 := c.Idx / 80
+	switch { // by index: populations beyond the sizes a loop is likely to be cut into (one second and more per UE: few of them)
+	case k0 == 0:
+		n = 51 + r.Intn(16)
+	case k0 == 1 && c.Thorough():
+		n = 101 + r.Intn(30)
+	case k0 == 2 && c.Thorough():
+		n = 257 + r.Intn(8)
+	}
 	if k0%5 == 4 && len(cfg.MNC) == 3 { // by index: the longest MSIN (ten digits: 15-digit IMSI, 2-digit MNC) with its highest carry in every run
 		cfg.MNC = cfg.MNC[:2]
 	}
